@@ -378,7 +378,9 @@ fn check_suggestions(cx: &Ctx, rep: &mut Report, d: Dialect, text: &str, l: &Lin
             rep.fail(
                 "suggestion_not_listed",
                 format!("suggestion {:?} for {:?} is not a word of the {} dictionary, even after lower-casing its first letter", s_of(v), text.chars().skip(l.span.start).take(l.span.end.saturating_sub(l.span.start)).collect::<String>(), dname(d)),
-                json!({"kind":"text","text":text,"dialect":dname(d)}),
+                // `warm`: the dialects whose checkers (other SpellCheck instances, same thread) saw this text before this
+                // one in the sweeps' fixed dialect order — a replay repeats that history (state shared between checkers)
+                json!({"kind":"text","text":text,"dialect":dname(d),"warm":DIALECTS.iter().take_while(|x| **x != d).map(|x| dname(*x)).collect::<Vec<_>>()}),
             );
         }
     }
@@ -829,6 +831,12 @@ fn replay_input(cx: &mut Ctx, rep: &mut Report, r: &mut Rng, v: &Value) {
                 Some(d) => vec![DIALECTS.iter().position(|x| *x == d).unwrap()],
                 None => vec![0, 1, 2, 3],
             };
+            for wd in v["warm"].as_array().cloned().unwrap_or_default().iter().filter_map(|x| x.as_str().and_then(dialect_of)) {
+                // fresh checkers of other dialects lint the text first (history of a multi-step failure)
+                let dict = cx.dict.clone();
+                let mut sc = SpellCheck::new(dict.clone(), wd);
+                let _ = run_text(&dict, &mut sc, &text);
+            }
             let f = |_d: Dialect| Some(Placed { text: text.clone(), words: vec![(0, text.chars().count(), 2)], entry: String::new(), form: "text", focus: 0 });
             do_placed(cx, rep, r, &f, &dl, [true; 4]);
         }
